@@ -48,6 +48,25 @@ def atomic_call(tu, n, counter_ids):
     return ('other', name)
 
 
+def call_mo(tu, n, index):
+    """explicit memory-order argument (as the integer value of std::memory_order, a string) of a call, None if defaulted,
+    '?' if not a constant.  relaxed=0 consume=1 acquire=2 release=3 acq_rel=4 seq_cst=5"""
+    sd, obj, args = tu.call_parts(n)
+    if len(args) <= index:
+        return None
+    a = tu.strip(args[index])
+    if a is None or a.get('kind') == 'CXXDefaultArgExpr':
+        return None
+    return tu.sd(a).get('cv') or tu.sd(args[index]).get('cv') or '?'
+
+
+def fence_mo(tu, n):
+    """memory order of a std::atomic_thread_fence call, else None"""
+    if n.get('kind') == 'CallExpr' and tu.sd(n).get('q') == 'std::atomic_thread_fence':
+        return call_mo(tu, n, 0) or '?'
+    return None
+
+
 def cfg_paths(g, limit=256):
     """all acyclic entry->exit paths as lists of (block, taken successor index)"""
     out = []
